@@ -104,9 +104,12 @@ func c05FnPrograms(thorough bool, f func(fam, src string) bool) bool {
 		}
 		pats = append(pats, string(alt2))
 	}
-	for _, pat := range pats {
+	for pi, pat := range pats {
 		k := len(pat)
 		names := c05ParamNames(k)
+		if k >= 1 && k <= 2 && pi%2 == 1 {
+			names = []string{"N", "Q"}[:k] // upper-case (constant style) parameter names
+		}
 		args := make([]string, k)
 		for i := range args {
 			args[i] = c05ArgKinds[pat[i]]
